@@ -302,7 +302,7 @@ class CatModel:
         for s1 in self._fork_shared(region, s):
             width = self._width(qt, it)
             self.access_ok(region, off, width, s1, it, n, 'read')
-            s1.ev('rd', n, region=region, off=off, width=width)
+            rd_ev = s1.ev('rd', n, region=region, off=off, width=width)
             if region[0] == 'lit' and off.is_const() and 0 <= off.const <= len(region[1]):
                 t = region[1]
                 c = ord(t[off.const]) if off.const < len(t) else 0
@@ -322,6 +322,7 @@ class CatModel:
                 out.append((s1, Lin.c(0)))
                 continue
             v = self.new_byte(s1, it, n, region, off, qt)
+            rd_ev['atom'] = v.terms[0][0]
             self.hook_read(region, off, v, s1, it, n)
             out.append((s1, v))
         return out
